@@ -271,7 +271,6 @@ func runJwksFile(in, out string) (int, error) {
 	return len(scs), nil
 }
 
-
 // startUnit brings a unit of the service up the way run.Group does: its PreRun step if it has one, then its serving loop.
 func startUnit(ctx context.Context, u any) {
 	if pr, ok := u.(interface{ PreRun() error }); ok {
